@@ -15,6 +15,8 @@
   operations — i.e. every operation sequence in every grouping into conjunctions.
 -/
 import PrologVerif.Proofs.StreamOps
+import PrologVerif.Proofs.StreamSeg
+import PrologVerif.Spec.CursorSeg
 import PrologVerif.Proofs.StreamOut
 import PrologVerif.Model.ClauseScanner
 namespace PrologVerif.C19
@@ -328,6 +330,71 @@ theorem C19_read_error_consumes_what_it_read (c : Cfg) (hv : c.Valid) (sc : Scan
   · intro hpast; have := hs'.past_iff.mp hpast; rw [hd'] at this; exact absurd this (by decide)
   · rw [← hcu'', hg]
   · rw [← hcu'', hp]
+
+/-! ### sources that go on after an end of file (eof_action(reset) over a terminal-like reader) -/
+
+/-- **C19_reset_segments_statement** (open): for every source that goes on after its ends of file (any list of
+    segments, any chunking, last bytes with or without io.EOF), eof_action reset or error, any term reader and
+    every sequence of queries, the model is accepted by the segment specification Spec/CursorSeg.lean
+    (`at` only when the current segment has no unread byte, reset moves to the next segment).  Checked by
+    the correspondence stream c19.ops (rd=seg) on model and implementation; proved below for the buffer. -/
+def C19_reset_segments_statement : Prop :=
+  ∀ (σ : Type) (sc : Scanner σ) (c : Cfg), MarksOk c → c.rd.fileSize = none → c.action ≠ .eofCode →
+    ∀ prog : List (List Op),
+      (SegSpec.judge { bytes := c.src, typ := c.typ, action := c.action, marks := c.rd.marks } sc prog
+        (runProg c sc prog Stream.init).1 {}).isSome = true
+
+/-- **C19_reset_segments_partial**: the buffer level of it, for ALL segment lists (ascending marks), all
+    chunkings and ALL sequences of the buffer operations a stream performs — reads, unreads and resets in
+    any order, across any number of ends of file:
+    (1) the buffer never fetches from behind an end-of-file mark the source has not reported yet;
+    (2) "the source's last Read reported io.EOF" — the fact checkEOS turns into end_of_stream(at) when the
+        buffer is empty — holds only while the buffer has fetched exactly up to the end of file that was
+        reported; so whenever checkEOS's test `Buffered() == 0 && ReadErr() == io.EOF` succeeds, the cursor
+        stands exactly at that end of file: no byte of the segment that ended is unread, and (by (1)) nothing
+        of the next segment is in the buffer.  In particular a reset clears the recorded error: `at` is never
+        reported because an EARLIER segment ended. -/
+theorem C19_reset_segments_partial (c : Cfg) (hm : MarksOk c) (ops : List BufOp) :
+    SegInv c (ops.foldl (fun b o => applyBufOp c o b) {}) ∧
+    ((ops.foldl (fun b o => applyBufOp c o b) {}).buffered = 0 →
+     (ops.foldl (fun b o => applyBufOp c o b) {}).rdErr = true →
+      (ops.foldl (fun b o => applyBufOp c o b) {}).cur = (ops.foldl (fun b o => applyBufOp c o b) {}).fetched ∧
+      ((1 ≤ (ops.foldl (fun b o => applyBufOp c o b) {}).eofs ∧
+          c.rd.marks[(ops.foldl (fun b o => applyBufOp c o b) {}).eofs - 1]? =
+            some (ops.foldl (fun b o => applyBufOp c o b) {}).cur) ∨
+       ((ops.foldl (fun b o => applyBufOp c o b) {}).eofs = c.rd.marks.length ∧
+          (ops.foldl (fun b o => applyBufOp c o b) {}).cur = c.src.length))) := by
+  have hinit : SegInv c ({} : Buf) := by
+    refine ⟨Nat.le_refl _, Nat.zero_le _, Nat.zero_le _, ?_, ?_⟩ <;> (intro hh; exact absurd hh (by decide))
+  have key : ∀ (ops : List BufOp) (b : Buf), SegInv c b → SegInv c (ops.foldl (fun b o => applyBufOp c o b) b) := by
+    intro ops
+    induction ops with
+    | nil => intro b h; exact h
+    | cons o os ih =>
+      intro b h
+      apply ih
+      cases o with
+      | readRune => exact (bufReadRune_seg_inv hm h).1
+      | readByte => exact (bufReadByte_seg_inv hm h).1
+      | unreadRune =>
+        simp only [applyBufOp]
+        cases hu : bufUnreadRune b with
+        | none => exact h
+        | some b' => exact bufUnreadRune_seg_inv h hu
+      | unreadByte =>
+        simp only [applyBufOp]
+        cases hu : bufUnreadByte b with
+        | none => exact h
+        | some b' => exact bufUnreadByte_seg_inv h hu
+      | reset => exact reset_seg_inv h
+  have hfin := key ops {} hinit
+  exact ⟨hfin, fun he hr => at_means_segment_end hfin he hr⟩
+
+/-- a segmented source: `ab`, end of file, `cd`, end of file, `e` -/
+example : MarksOk { src := [97, 98, 99, 100, 101],
+                    rd := { chunk := fun _ => 1, eofWithData := false, fileSize := none, marks := [2, 4] },
+                    typ := .text, action := .reset } := by
+  refine ⟨by decide, by decide, by decide⟩
 
 /-! ### UTF-8 -/
 
